@@ -98,7 +98,7 @@ def _patch_ret(case, failure):
 
 
 def _stale_returns(case, failure):
-    """Signature of C03-stale-return-edges (three call-site shapes)."""
+    """Signature of C03-stale-return-edges (four call-site shapes)."""
     exp = Lm.Expected(case)
     # (i) a wholly deleted block that ends in a direct call to one of its own labels
     for g in exp.deleted_blocks:
@@ -129,6 +129,15 @@ def _stale_returns(case, failure):
         items, _ = case.patch_units(ed)
         if calls_f and any(isinstance(x, Lm.Unit) and x.kind == "ret" for x in items):
             return True
+    # (iv) a removed direct call whose target label had slid onto the following block because the block that
+    #      carried it was deleted as a whole (without retarget_to_proxy): the callee is looked up through the
+    #      call edge's current target, which is no longer a block of the original callee
+    for b in case.blocks:
+        for u in b.units:
+            if u.deleted and u.kind == "call" and u.sym in case.label_block:
+                g = case.label_block[u.sym][0]
+                if g in exp.deleted_blocks and g not in exp.proxy_blocks and g != b.gidx:
+                    return True
     return False
 
 
